@@ -8,6 +8,8 @@ def expr(e):
     if k == "num":
         return str(e["n"])
     if k == "var":
+        if e["name"].startswith("PORT"):
+            return "(*%s)" % e["name"]       # hardware register behind a constant pointer
         return e.get("cname", e["name"])
     if k == "aname":
         return e["name"]
